@@ -226,6 +226,34 @@ pub fn run(case: &serde_json::Value, out: &mut String) {
                     }
                     None => Outcome::Skip,
                 },
+                // transition replacement by a 3-opt reordering of the cycle that holds the picked vehicle (TransitionCycle::
+                // three_opt + Transition::replace_cycle: the move of the cycle TSP inside the transition optimiser), stored with
+                // set_next_day_transitions
+                "threeopt" => match pick(&real, &op[1]) {
+                    Some(v) => {
+                        let ty = s.vehicle_type_of(v).unwrap();
+                        let tr = s.next_day_transition_of(ty);
+                        let found = tr.cycles_iter().enumerate().find(|(_, c)| c.iter().any(|x| x == v)).map(|(ci, c)| (ci, c.len()));
+                        match found {
+                            Some((ci, n)) if n >= 3 => {
+                                let (a, b, c) = (op[2].as_u64().unwrap() as usize, op[3].as_u64().unwrap() as usize, op[4].as_u64().unwrap() as usize);
+                                let i = a % (n - 2);
+                                let j = i + 1 + b % (n - 2 - i);
+                                let k = j + 1 + c % (n - 1 - j);
+                                desc = format!("{} {} {} {} {}", vid(v), ci, i, j, k);
+                                let newc = tr.get_cycle(ci).three_opt(i, j, k, s.get_tours(), &s.get_network());
+                                let moved = tr.replace_cycle(ci, newc);
+                                let mut m: im::HashMap<VehicleTypeIdx, solution::transition::Transition> = im::HashMap::new();
+                                for t in s.get_network().vehicle_types().iter() {
+                                    m.insert(t, if t == ty { moved.clone() } else { s.next_day_transition_of(t).clone() });
+                                }
+                                Outcome::Ok(s.set_next_day_transitions(m), String::new())
+                            }
+                            _ => Outcome::Skip,
+                        }
+                    }
+                    None => Outcome::Skip,
+                },
                 _ => panic!("unknown op"),
             }
         });
